@@ -128,7 +128,23 @@ Theorem tie_state_op_counts :
   ops_of "Kill" "SwapInt32" = 2%nat /\ ops_of "Kill" "StoreInt32" = 1%nat.
 Proof. repeat split; vm_compute; reflexivity. Qed.
 
+
+(* the four Item() re-checks after the CAS Running->Sleep (the lost-wake-up argument of C02 rests on EVERY
+   queue being looked at again): the source tests Main, System, Urgent, Log in this order, which is the
+   model's [item_order] (queue numbers: 0 Urgent, 1 System, 2 Main, 3 Log) *)
+Local Open Scope string_scope.
+Definition queue_name (q : nat) : string :=
+  match q with 0 => "Urgent" | 1 => "System" | 2 => "Main" | _ => "Log" end%nat.
+Definition recheck_text (q : nat) : string :=
+  "process.go run: if p.mailbox." ++ queue_name q ++ ".Item() == nil [not an integer comparison: p.mailbox." ++ queue_name q ++ ".Item() == nil]".
+Theorem tie_sleep_rechecks_every_queue :
+  runitems_other = map (fun k => recheck_text (item_order k)) [0; 1; 2; 3]%nat /\
+  runitems_0 = [] /\ runitems_1 = [] /\ runitems_2 = [] /\ runitems_3 = [] /\ runitems_4 = [].
+Proof. repeat split; vm_compute; reflexivity. Qed.
+Local Close Scope string_scope.
+
 Print Assumptions tie_state_codes.
+Print Assumptions tie_sleep_rechecks_every_queue.
 Print Assumptions tie_state_ops_are_model_transitions.
 Print Assumptions tie_state_plain_store.
 Print Assumptions tie_model_transitions_in_source.
